@@ -1151,7 +1151,7 @@ theorem multi_kind (s : Val) (g : List Val → Out (List Val)) (r : Val) (k : Ki
     (hk : s.kind? = some k) (h : multi s g = .ok r) : r.kind? = some (kindRule k) := by
   unfold multi at h
   rw [hk] at h
-  cases he : s.elems? with
+  cases he : s.forced? with
   | none => rw [he] at h; cases h
   | some xs =>
     rw [he] at h
@@ -1207,6 +1207,14 @@ theorem drop_kind (L : Lib) (s : Val) (f : Fn) (r : Val) (k : Kind) (hk : s.kind
     injection hk with hk; subst hk
     change (L.dropWhile f.pred xs).map Val.stream = .ok r at h
     cases hd : L.dropWhile f.pred xs with
+    | ok ys => rw [hd] at h; simp [Out.map] at h; subst h; rfl
+    | throw => rw [hd] at h; cases h
+    | panic => rw [hd] at h; cases h
+  | wrapped items pos =>
+    simp only [Val.kind?] at hk
+    injection hk with hk; subst hk
+    change (L.dropWhile f.pred (Val.wIter items pos)).map Val.stream = .ok r at h
+    cases hd : L.dropWhile f.pred (Val.wIter items pos) with
     | ok ys => rw [hd] at h; simp [Out.map] at h; subst h; rfl
     | throw => rw [hd] at h; cases h
     | panic => rw [hd] at h; cases h
@@ -2418,5 +2426,76 @@ theorem lib_unique : implLib.unique = specLib.unique := by funext xs; exact uniq
 theorem call_unique (s : Val) : call implLib "unique" [.v s] = call specLib "unique" [.v s] := by
   show multi s implLib.unique = multi s specLib.unique
   rw [lib_unique]
+
+/-! ## positioned streams (`stream(seq)`, core.rs `WrappedVec`) and chained infix forms -/
+
+theorem wIterGo_eq_drop (items : List Val) (fuel pos : Nat) (h : items.length - pos ≤ fuel) :
+    Val.wIterGo items fuel pos = items.drop pos := by
+  induction fuel generalizing pos with
+  | zero =>
+    have : items.length ≤ pos := by omega
+    simp [Val.wIterGo, List.drop_eq_nil_of_le this]
+  | succ fuel ih =>
+    simp only [Val.wIterGo]
+    cases hx : items[pos]? with
+    | none =>
+      have : items.length ≤ pos := by simpa using hx
+      simp [List.drop_eq_nil_of_le this]
+    | some x =>
+      have hlt : pos < items.length := by
+        rcases Nat.lt_or_ge pos items.length with h1 | h1
+        · exact h1
+        · rw [List.getElem?_eq_none h1] at hx; cases hx
+      rw [ih (pos + 1) (by omega)]
+      have hx' : items[pos] = x := by
+        rw [List.getElem?_eq_getElem hlt] at hx; injection hx
+      rw [← hx']
+      exact (List.drop_eq_getElem_cons hlt).symm
+
+/-- **the two views of a positioned stream agree**: what iteration (`next` from the read
+position, used by map / fold / zip / window / …) sees is what `force` (used by the `multi!`
+family, `reverse`, `suffixes`) returns: the elements from the position on, never the consumed
+prefix -/
+theorem wrapped_views_agree (items : List Val) (pos : Nat) :
+    Val.wIter items pos = Val.wForce items pos :=
+  wIterGo_eq_drop items _ pos (Nat.le_refl _)
+
+theorem wrapped_elems_forced (items : List Val) (pos : Nat) :
+    (Val.wrapped items pos).elems? = (Val.wrapped items pos).forced? := by
+  simp [Val.elems?, Val.forced?, wrapped_views_agree]
+
+/-- so every builtin sees an advanced `stream(seq)` exactly as the fresh stream of the remaining
+elements -/
+theorem multi_wrapped (items : List Val) (pos : Nat) (g : List Val → Out (List Val)) :
+    multi (.wrapped items pos) g = multi (.stream (items.drop pos)) g := rfl
+
+theorem multimulti_wrapped (items : List Val) (pos : Nat) (g : List Val → Out (List (List Val))) :
+    multimulti (.wrapped items pos) g = multimulti (.stream (items.drop pos)) g := by
+  simp [multimulti, Val.kind?, Val.elems?, wrapped_views_agree, Val.wForce]
+
+/-- a chain of one self-chaining operator is ONE n-ary call: `a zip b zip c = zip(a, b, c)`,
+likewise `ziplongest` and `**`, for chains of every length -/
+theorem evalChainGo_merge (L : Lib) (f : String) (hf : chains f f = true) (args : List Arg) (rest : List Arg) :
+    evalChainGo L f args (rest.map fun x => (f, x)) = call L f (args ++ rest) := by
+  induction rest generalizing args with
+  | nil => simp [evalChainGo]
+  | cons x rest ih => simp [evalChainGo, hf, ih]
+
+theorem evalChain_merge (L : Lib) (f : String) (hf : chains f f = true) (x0 x1 : Arg) (rest : List Arg) :
+    evalChain L x0 ((x1 :: rest).map fun x => (f, x)) = call L f (x0 :: x1 :: rest) := by
+  simp [evalChain, evalChainGo_merge L f hf]
+
+/-- a trailing `with g` adds the function to the same call -/
+theorem evalChainGo_with (L : Lib) (f : String) (hf : chains f "with" = true) (args : List Arg) (g : Arg) :
+    evalChainGo L f args [("with", g)] = call L f (args ++ [g]) := by
+  simp [evalChainGo, hf]
+
+/-- operators that do not chain are nested binary calls: `a zip b ziplongest c = ziplongest(zip(a, b), c)` -/
+theorem evalChain_nomerge (L : Lib) (f g : String) (h : chains f g = false) (x0 x1 x2 : Arg) :
+    evalChain L x0 [(f, x1), (g, x2)] = andThen (call L f [x0, x1]) fun r => call L g [.v r, x2] := by
+  simp [evalChain, evalChainGo, h]
+
+example : chains "zip" "zip" = true ∧ chains "ziplongest" "ziplongest" = true ∧ chains "**" "**" = true
+    ∧ chains "ziplongest" "zip" = false ∧ chains "zip" "ziplongest" = false := by decide
 
 end Noulith.C13
